@@ -1,5 +1,6 @@
 From Coq Require Import Extraction ExtrOcamlBasic List NArith.
-From BioVerif Require Import Lib.Conv Model.Policy Spec.PolicyRef.
+From BioVerif Require Import Lib.Conv Model.Policy Model.PolicyConfig Spec.PolicyRef Spec.PolicyConfigSpec.
 Extraction Language OCaml.
 Extraction "c14_model.ml" conv_anchor process chain_equal chain_ref
-  prefix_wfb chain_wfb path_wfb matcher_match m_ref.
+  prefix_wfb chain_wfb path_wfb matcher_match m_ref
+  load_cfg policy_ref import_names export_names.
